@@ -100,11 +100,18 @@ pub fn gen_value(rng: &mut Rng, uniq: &mut u32) -> String {
     match rng.below(10) {
         0..=3 => VALUES[rng.below(VALUES.len() as u64) as usize].to_string(),
         4 => {
-            // longer than the 250-byte writer buffers
-            let n = rng.range(240, 600) as usize;
+            // longer than the 250-byte writer buffers; one in six far longer than any 8 KiB I/O buffer
+            // (ASCII or 3-byte characters, so that a cut at a buffer boundary can fall inside a character)
+            let huge = rng.chance(1, 6);
+            let n = if huge { rng.range(8_100, 30_000) } else { rng.range(240, 600) } as usize;
+            let wide = huge && rng.chance(1, 2);
             let mut s = format!("L{}-", uniq);
             while s.len() < n {
-                s.push(((b'a' + (s.len() % 26) as u8) as char));
+                if wide {
+                    s.push(char::from_u32(0x6f22).unwrap());
+                } else {
+                    s.push((b'a' + (s.len() % 26) as u8) as char);
+                }
             }
             s
         }
